@@ -18,6 +18,7 @@ from exabgp.protocol.resource import Resource
 
 class ICMPType(Resource):
     NAME: ClassVar[str] = 'icmp type'
+    MAX: ClassVar[int] = 0xFF  # one octet in the ICMP header and in a FlowSpec component
 
     ECHO_REPLY: ClassVar[int] = 0x00
     UNREACHABLE: ClassVar[int] = 0x03
@@ -64,6 +65,7 @@ class ICMPType(Resource):
 # https://www.iana.org/assignments/icmp-parameters
 class ICMPCode(Resource):
     NAME: ClassVar[str] = 'icmp code'
+    MAX: ClassVar[int] = 0xFF  # one octet in the ICMP header and in a FlowSpec component
 
     # Destination Unreacheable (type 3)
     NETWORK_UNREACHABLE: ClassVar[int] = 0x0
